@@ -255,7 +255,26 @@ CATALOGUE = [
     ("dgrep", [">=2000-01-01"], ("stdin",)),
     ("dgrep", ["-v", "%a=\"Mon\""], ("stdin",)),
     ("dgrep", ["-o", "<2100-01-01T00:00:00"], ("stdin",)),
+    # named calendars as output of ddiff, date-only operands among date-times
+    ("ddiff", ["2012-03-04T12:00:00", "-f", "ymd"], ("stdin",)),
+    ("ddiff", ["2012-03-04T12:00:00", "-f", "ywd"], ("stdin",)),
+    ("ddiff", ["2012-03-04T12:00:00", "-f", "yd"], ("stdin",)),
+    # a date on the command line, one duration per line on stdin
+    ("dadd", ["2012-03-31"], ("stdin",), "durs"),
+    ("dadd", ["2012-01-31T22:30:00", "-f", "%FT%T"], ("stdin",), "durs"),
+    ("dadd", ["-q", "2011-W52-7"], ("stdin",), "durs"),
 ]
+DURS_OK = ["+1d", "-3d", "+2w", "1mo", "-1mo", "+1y", "1y2mo", "3d12h", "+5b", "-5b", "+36h", "90m", "+86400s", "-1s", "1q"]
+DURS_HALF = ["3d foo", "+1h x", "1w2", "+1mo!", "2d 5", "+1y+", "3dd", "1h30mX"]
+DURS_BAD = ["foo", "", "2x", "--3d", "d", "+", "1.5d", "  "]
+
+
+def _dur_inputs(rnd, k):
+    out = []
+    for _ in range(k):
+        r = rnd.random()
+        out.append(rnd.choice(DURS_OK) if r < 0.6 else rnd.choice(DURS_HALF) if r < 0.85 else rnd.choice(DURS_BAD))
+    return out
 
 
 _ZN = None
@@ -289,12 +308,13 @@ def tools(ctx, shard, nshards):
     rnd = random.Random(ctx.sub_seed("c13t", shard))
     B = boundary()
     for it in range(70 if not ctx.thorough else 1200):
-        tool, pre, modes = rnd.choice(CATALOGUE)
+        ent = rnd.choice(CATALOGUE)
+        tool, pre, modes = ent[:3]
         mode = rnd.choice(modes)
         k = rnd.randrange(2, 40)
         if mode == "stdin" and rnd.random() < 0.06:
             k = rnd.randrange(300, 600)
-        items = _mixed_inputs(rnd, B, k)
+        items = _dur_inputs(rnd, k) if len(ent) > 3 and ent[3] == "durs" else _mixed_inputs(rnd, B, k)
         if mode == "args":
             items = [i for i in items if i.strip()]      # empty arguments are not values
         # a stdin line is one input: no embedded newlines; ddiff/dgrep/dround read one value per line
